@@ -18,6 +18,7 @@
   * ParamPack, ExtensionPack: a count and a loop over a linked table through helper functions.
 -/
 import Golib.Layout.IR
+import Golib.Gen.PackLayouts
 
 namespace Layout
 
@@ -71,42 +72,63 @@ def L.subst (n : String) (v : Int) : L → L
   | .avail b => .avail (b.subst n v)
   | .unknown w => .unknown w
 
+/-- the writer layout for records whose field `n` has the value `k` (the reader dispatches on it) -/
+def L.pin (n : String) (k : Int) : L → L
+  | .nil => .nil
+  | .fld m p g rest => if m = n then .kfld m p k (rest.pin n k) else .fld m p g (rest.pin n k)
+  | .lit p u rest => .lit p u (rest.pin n k)
+  | .skip p rest => .skip p (rest.pin n k)
+  | .var m p rest => .var m p (rest.pin n k)
+  | .ite c t e rest => .ite c (t.pin n k) (e.pin n k) (rest.pin n k)
+  | .guard c rest => .guard c (rest.pin n k)
+  | .opt m b rest => .opt m b (rest.pin n k)
+  | .rep c m b rest => .rep c m b (rest.pin n k)
+  | .wrap b rest => .wrap (b.pin n k) (rest.pin n k)
+  | .hdr rest => .hdr (rest.pin n k)
+  | .times j m b rest => .times j m b (rest.pin n k)
+  | .sub m b rest => .sub m b (rest.pin n k)
+  | .kfld m p j rest => .kfld m p j (rest.pin n k)
+  | .key m p v rest => .key m p v (rest.pin n k)
+  | .mopt j m b rest => .mopt j m b (rest.pin n k)
+  | .vopt v m b rest => .vopt v m b (rest.pin n k)
+  | .mrep j m b rest => .mrep j m b (rest.pin n k)
+  | .vrep v m b rest => .vrep v m b (rest.pin n k)
+  | .srep c b rest => .srep c b (rest.pin n k)
+  | .avail b => .avail (b.pin n k)
+  | .unknown w => .unknown w
+
 end Layout
 
 namespace Packs.Hand
 open Layout
 
-def TagCountPack.w : L :=
-  .hdr (.lit .u8 0 (.fld "Category" .blob .any (.fld "tagHash" .dec .i64
-    (.fld "Tags" .mapV .any (.fld "Data" .mapV .any .nil)))))
+/-- the tag section: `decimal(hash') value(tags)` on both branches of the writer's `if` (the gap `g0`) -/
+def tagSection (hash : String) (r : L) : L := .fld hash .dec .i64 (.fld "Tags" .mapV .any r)
 
-def TagLogPack.w : L :=
-  .hdr (.lit .u8 0 (.fld "Category" .blob .any (.fld "tagHash" .dec .i64
-    (.fld "Tags" .mapV .any (.fld "Fields" .mapV .any .nil)))))
-
+/-- the transcription of `Write`, its one untranscribed statement (the hash-then-map `if`) filled in -/
+def TagCountPack.w : L := Gen.Packs.TagCountPack.w (tagSection "tagHash")
+def TagLogPack.w : L := Gen.Packs.TagLogPack.w (tagSection "tagHash")
 /-- `Fields` travels behind a presence flag that is set only when the map is non-nil and non-empty -/
-def LogSinkPack.w : L :=
-  .hdr (.lit .u8 0 (.fld "Category" .blob .any (.fld "TagHash" .dec .i64 (.fld "Tags" .mapV .any
-    (.fld "Line" .dec .i64 (.fld "Content" .blob .any
-      (.opt "Fields" (.fld "Fields" .mapV .any .nil) .nil)))))))
+def LogSinkPack.w : L := Gen.Packs.LogSinkPack.w (tagSection "TagHash")
 
-def ParamPack.l : L :=
-  .hdr (.fld "Id" .i32 .i32 (.fld "Request" .dec .i64 (.fld "Response" .dec .i64
-    (.rep .dec "table" (.fld "key" .blob .any (.fld "val" .value .any .nil)) .nil))))
+/-- the parameter table: decimal count, then text key and tagged value per entry (a loop over `Keys()` / `Put`) -/
+def paramTable (r : L) : L := .rep .dec "table" (.fld "key" .blob .any (.fld "val" .value .any .nil)) r
+def ParamPack.w : L := Gen.Packs.ParamPack.w paramTable
+def ParamPack.r : L := Gen.Packs.ParamPack.r paramTable
+def ParamPack.l : L := ParamPack.w
 
-def ExtensionPack.w : L :=
-  .hdr (.lit .u8 0 (.fld "IsProjectWide" .bool .bool
-    (.rep .dec "Header" (.fld "key" .blob .any (.fld "val" .i32 .i32 .nil))
-      (.fld "Value" .imapV .any .nil))))
-def ExtensionPack.r : L :=
-  .hdr (.skip .u8 (.fld "IsProjectWide" .bool .bool
-    (.rep .dec "Header" (.fld "key" .blob .any (.fld "val" .i32 .i32 .nil))
-      (.fld "Value" .imapV .any .nil))))
+/-- `toHeaderBytes` / `toHeaderObject`: decimal count, then text key and int per entry -/
+def headerTable (r : L) : L := .rep .dec "Header" (.fld "key" .blob .any (.fld "val" .i32 .i32 .nil)) r
+def ExtensionPack.w : L := Gen.Packs.ExtensionPack.w headerTable
+def ExtensionPack.r : L := Gen.Packs.ExtensionPack.r headerTable
 
 /-- EventPack on the wire: the attribute table as written, i.e. *after* `Write` has folded
     uuid / escalation / status / otype into it (Golib.Packs.Event models the folding) -/
-def EventPack.l : L :=
-  .hdr (.fld "Level" .u8 .u8 (.fld "Title" .blob .any (.fld "Message" .blob .any
-    (.rep .u8 "Attr" (.fld "key" .blob .any (.fld "val" .blob .any .nil)) .nil))))
+def attrTable (r : L) : L := .rep .u8 "Attr" (.fld "key" .blob .any (.fld "val" .blob .any .nil)) r
+/-- writer: the folding statements and the table loop are the gap; reader: the table loop is transcribed,
+    the gap is the unfolding (no I/O: identity on the wire) -/
+def EventPack.w : L := Gen.Packs.EventPack.w attrTable
+def EventPack.r : L := Gen.Packs.EventPack.r (fun r => r)
+def EventPack.l : L := EventPack.w
 
 end Packs.Hand
